@@ -687,6 +687,80 @@ static void part_sort(const Args& a) {
     C["distinct_nontrivial"] += nontrivial;    // collections of at least two objects
 }
 
+// --- histories on ONE ObjectPointerCollection ---------------------------------------------------
+// Operations: add one of 6 objects (distinct (type,id,version), so every comparator orders them totally), sort with two
+// different comparators, unique(object_equal_type_id), clear - every sequence up to a depth. After EVERY operation the
+// collection's pointer sequence must equal the model's (a plain vector handled with std::sort / std::unique and the reference
+// order); after every sort the stream is given to CheckOrder. A collection object is used for a whole history: state kept
+// inside the collection between operations (counts, cached order) is exercised, which single sorts never do.
+static const char OPC_OPS[] = "abcdefSRUC";    // a-f add symbol 0-5, S sort(type_id_version), R sort(type_id_reverse_version), U unique, C clear
+static void opc_history(const std::string& ops, const std::vector<Obj>& sym, const std::string& spec) {
+    osmium::ObjectPointerCollection coll;
+    std::vector<const Obj*> model;
+    auto seq_text = [&](const std::vector<const Obj*>& v) { std::string t; for (const Obj* o : v) t += (t.empty() ? "" : " ") + okey(o->k); return t; };
+    size_t step = 0;
+    for (char op : ops) {
+        ++step;
+        const char* kind = "add";
+        if (op >= 'a' && op <= 'f') { const Obj& o = sym[static_cast<size_t>(op - 'a')]; coll.osm_object(*o.p); model.push_back(&o); }
+        else if (op == 'S' || op == 'R') {
+            kind = "sort";
+            const Comp c = op == 'S' ? FN_TIV : FN_REV;
+            if (op == 'S') coll.sort(osmium::object_order_type_id_version{}); else coll.sort(osmium::object_order_type_id_reverse_version{});
+            std::stable_sort(model.begin(), model.end(), [&](const Obj* x, const Obj* y) { return ref_less(c, x->k, y->k) == 1; });
+        } else if (op == 'U') {
+            kind = "unique";
+            coll.unique(osmium::object_equal_type_id{});
+            model.erase(std::unique(model.begin(), model.end(), [](const Obj* x, const Obj* y) { return x->k.type == y->k.type && x->k.id == y->k.id; }), model.end());
+        } else { kind = "clear"; coll.clear(); model.clear(); }
+        std::vector<const Obj*> got;
+        bool unknown = false;
+        for (auto it = coll.ptr_begin(); it != coll.ptr_end(); ++it) {
+            const Obj* f = nullptr;
+            for (const Obj& o : sym) if (o.p == *it) f = &o;
+            if (!f) unknown = true; else got.push_back(f);
+        }
+        if (unknown || got != model || coll.size() != model.size() || coll.empty() != model.empty()) {
+            V.report(std::string("collection-history/differs-from-model/after-") + kind, "history " + ops.substr(0, step) + ": collection holds [" + seq_text(got) + "]" + (unknown ? " + unknown pointers" : "") + ", model [" + seq_text(model) + "]", spec);
+            return;
+        }
+        if (op == 'S') {      // ascending (type, id, version): CheckOrder must accept it iff all (type,id) are distinct
+            bool distinct = true;
+            for (size_t i = 1; i < model.size(); ++i) if (model[i]->k.type == model[i - 1]->k.type && model[i]->k.id == model[i - 1]->k.id) distinct = false;
+            osmium::handler::CheckOrder h; bool acc = true;
+            try { osmium::apply(coll.cbegin(), coll.cend(), h); } catch (const osmium::out_of_order_error&) { acc = false; }
+            if (acc != distinct) { V.report(std::string("collection-history/check-order-") + (acc ? "accepts-duplicates" : "rejects-sorted") + "/after-sort", "history " + ops.substr(0, step) + ": [" + seq_text(got) + "]", spec); return; }
+        }
+    }
+}
+
+static void part_opchist(const Args& a) {
+    Pool pool;
+    std::vector<Obj> sym;
+    const Key ks[6] = {{0, 1, 1, 1, true}, {0, 1, 2, 2, true}, {0, 2, 1, 1, true}, {1, 1, 1, 1, true}, {0, -1, 1, 1, true}, {0, 0, 3, 3, true}};
+    for (const Key& k : ks) sym.push_back(pool[pool.add(k)]);
+    const unsigned maxlen = a.thorough ? 8 : 6;
+    const size_t NO = sizeof(OPC_OPS) - 1;
+    uint64_t ev = 0, nontrivial = 0;
+    for (unsigned len = 1; len <= maxlen; ++len) {
+        const uint64_t total = benum::ipow(NO, len);
+        bool complete = true;
+        for (uint64_t r = a.shard; r < total; r += a.nshards) {
+            if ((r & 0xfff) == a.shard && a.expired()) { complete = false; break; }
+            std::string ops; uint64_t x = r; unsigned sorts = 0, adds = 0;
+            for (unsigned p = 0; p < len; ++p) { const char c = OPC_OPS[x % NO]; x /= NO; ops += c; sorts += c == 'S' || c == 'R'; adds += c >= 'a' && c <= 'f'; }
+            opc_history(ops, sym, "opc/" + ops);
+            ++ev;
+            if (sorts >= 1 && adds >= 2) ++nontrivial;
+        }
+        benum::bound("collection histories: every sequence of " + std::to_string(len) + " operations over {add x6, sort x2, unique, clear}", complete);
+    }
+    if (a.shard == 0) benum::sample("collection history abSUcS on one ObjectPointerCollection: add n1v1, add n1v2, sort, unique(type,id), add n2v1, sort -> [n:1:1:1:1 n:2:1:1:1], CheckOrder accepts");
+    C["evaluations"] += ev;
+    C["collection_histories"] += ev;
+    C["distinct_nontrivial"] += nontrivial;     // histories with at least one sort and two adds
+}
+
 // ------------------------------------------------------------------------------------------------
 static std::vector<std::string> split(const std::string& s, char sep) {
     std::vector<std::string> r; std::string cur;
@@ -723,6 +797,13 @@ static int replay(const std::string& spec) {
         if (!ab && !ba && !bc && !cb && (ac || ca)) V.report("id-order/incomparability-not-transitive/" + c3, "ids " + f[1] + ", " + f[2] + ", " + f[3], spec);
         return 0;
     }
+    if (f[0] == "opc" && f.size() == 2) {
+        std::vector<Obj> sym;
+        const Key ks[6] = {{0, 1, 1, 1, true}, {0, 1, 2, 2, true}, {0, 2, 1, 1, true}, {1, 1, 1, 1, true}, {0, -1, 1, 1, true}, {0, 0, 3, 3, true}};
+        for (const Key& k : ks) sym.push_back(pool[pool.add(k)]);
+        opc_history(f[1], sym, spec);
+        return 0;
+    }
     if (f[0] == "seq" && objs_from(1, o)) {
         std::vector<const Obj*> seq;
         for (const Obj& x : o) seq.push_back(&x);
@@ -755,6 +836,7 @@ int main(int argc, char** argv) {
     else if (part == "idtriples") part_idtriples(a);
     else if (part == "checkorder") part_checkorder(a);
     else if (part == "sort") part_sort(a);
+    else if (part == "opchist") part_opchist(a);
     else { fprintf(stderr, "unknown part\n"); return 2; }
     C.emit();
     return 0;
